@@ -26,6 +26,10 @@ class _Fn:
 class PT(str):
     """a plane type value (`lentil.pupil`, ...)"""
 
+class _Obj:
+    """an object with attributes (identity matters: two _Obj with equal attributes are different objects)"""
+    def __init__(self, **kw): self.__dict__.update(kw)
+
 def _ev(e, env, fns, ptypes):
     if isinstance(e, ast.Constant):
         if e.value is None or isinstance(e.value, (bool, str)): return e.value
@@ -34,6 +38,10 @@ def _ev(e, env, fns, ptypes):
         if e.id in env: return env[e.id]
         if e.id in fns: return fns[e.id]
         raise Refuse(f'unknown name {e.id}')
+    if isinstance(e, ast.Attribute) and isinstance(e.value, ast.Name) and e.value.id != 'lentil' and isinstance(env.get(e.value.id), _Obj):
+        o = env[e.value.id]
+        if not hasattr(o, e.attr): raise _Raise('AttributeError')
+        return getattr(o, e.attr)
     if isinstance(e, ast.Attribute) and isinstance(e.value, ast.Name) and e.value.id == 'lentil':
         if e.attr in ptypes: return PT(e.attr)
         raise Refuse(f'lentil.{e.attr} is not a plane type')
@@ -48,8 +56,8 @@ def _ev(e, env, fns, ptypes):
         a = _ev(e.left, env, fns, ptypes); b = _ev(e.comparators[0], env, fns, ptypes); op = e.ops[0]
         if isinstance(op, ast.Eq): return a == b
         if isinstance(op, ast.NotEq): return a != b
-        if isinstance(op, ast.Is): return a is b if (a is None or b is None) else _refuse('is')
-        if isinstance(op, ast.IsNot): return a is not b if (a is None or b is None) else _refuse('is not')
+        if isinstance(op, ast.Is): return a is b if (a is None or b is None or isinstance(a, _Obj) or isinstance(b, _Obj)) else _refuse('is')
+        if isinstance(op, ast.IsNot): return a is not b if (a is None or b is None or isinstance(a, _Obj) or isinstance(b, _Obj)) else _refuse('is not')
         if isinstance(op, (ast.In, ast.NotIn)):
             if not isinstance(b, (tuple, list, dict)): raise Refuse('membership in a non-container')
             r = a in b
@@ -78,6 +86,7 @@ def _ev(e, env, fns, ptypes):
 def _refuse(what): raise Refuse(what)
 
 def _truth(v):
+    if isinstance(v, _Obj): return True
     if v is None or isinstance(v, (bool, str, tuple, list, dict, _Fn)): return bool(v)
     raise Refuse('truth value of ' + repr(v))
 
@@ -137,6 +146,27 @@ def _ptypes(repo):
     f = _toplevel(tree, ast.FunctionDef).get('ptype')
     if f is None or not any(isinstance(n, ast.If) and ast.unparse(n) == "if ptype is None:\n    ptype = 'none'" for n in f.body):
         raise Refuse("ptype(): None -> 'none' rule not found")
+    # PType.__eq__ / __hash__ (anchor of C08): equality must be equality of the keys for *any* two PType objects — also ones
+    # that did not come from the same factory call (copies, unpickled planes, PType(...) built directly); the tables below
+    # are evaluated with key equality, which is sound only then. Evaluated on distinct objects for all 25 pairs.
+    cls = _toplevel(tree, ast.ClassDef).get('PType')
+    if cls is None: raise Refuse('class PType not found')
+    meth = {n.name: n for n in cls.body if isinstance(n, ast.FunctionDef)}
+    if '__eq__' not in meth or '__hash__' not in meth: raise Refuse('PType.__eq__/__hash__ not found')
+    init = meth.get('__init__')
+    if init is None or 'self._key = ptype' not in ast.unparse(init): raise Refuse('PType.__init__ does not store the key in _key')
+    for a in v:
+        for b in v:
+            x, y = _Obj(_key=a), _Obj(_key=b)
+            for (l, r) in ((x, y), (x, x)):
+                try:
+                    got = call(_Fn(meth['__eq__']), [l, r], {}, {}, v)
+                except _Raise as e:
+                    raise Refuse(f'PType.__eq__ raises {e.name}')
+                want = (l._key == r._key)
+                if got is not want: raise Refuse(f"PType.__eq__ is not equality of keys: two objects with keys ({l._key!r}, {r._key!r}) compare {got!r}")
+    if ast.unparse(meth['__hash__'].body[-1]) != 'return hash(self._key)': raise Refuse('PType.__hash__ is not hash of the key')
+    if '__ne__' in meth: raise Refuse('PType.__ne__ defined')
     # the names lentil.<ptype> are bound in lentil/__init__.py
     init = open(os.path.join(repo, 'lentil/__init__.py')).read()
     for p in v:
@@ -352,8 +382,8 @@ def class_table(repo, ptypes):
 
 # ------------------------------------------------------------------------------------------- documentation
 def _rst_section(text, title):
-    m = re.search(rf'(?m)^{re.escape(title)}\n[=\-~]{{3,}}\n', text)
-    if not m: raise Refuse(f'RST section {title!r} not found')
+    m = re.search(rf'(?mi)^{re.escape(title)}[ \t]*\n[=\-~^"]{{3,}}[ \t]*\n', text)
+    if not m: return text        # section renamed: search the whole page for the table
     rest = text[m.end():]
     n = re.search(r'(?m)^\S.*\n[=\-~]{3,}\n', rest)
     # a following section title: a text line followed by an underline of the same length
@@ -373,7 +403,6 @@ def doc_mul(repo, ptypes, wtypes):
     header = [l for l in lines[:head_end[0]] if l.startswith('|')]
     cols = [re.sub(r'`', '', c) for c in cells(header[-1])[1:]]
     if tuple(cols) != tuple(wtypes): raise Refuse(f'grid table: column heads {cols}')
-    if 'Wavefront' not in header[0] or not any('Plane' in l for l in lines[:head_end[0]]): raise Refuse('grid table: axes')
     doc = {}
     for l in lines[head_end[0] + 1:]:
         if not l.startswith('|'): continue
@@ -382,7 +411,7 @@ def doc_mul(repo, ptypes, wtypes):
         p = c[0].replace('`', '')
         if p not in ptypes or any((w, p) in doc for w in wtypes): raise Refuse(f'grid table row head {c[0]!r}')
         for w, v in zip(wtypes, c[1:]):
-            if v == 'Not allowed': doc[(w, p)] = None
+            if re.fullmatch(r'not\s+allowed\.?', v.strip('*_` '), flags=re.I): doc[(w, p)] = None
             else:
                 v = v.replace('`', '')
                 if v not in wtypes: raise Refuse(f'grid table cell {v!r}')
